@@ -742,3 +742,622 @@ Proof.
   - intros b' n' Hne. rewrite H1. apply find_obj_store_add_other. exact Hne.
   - intros Hb b0 n0 o0 Hf0. apply (gens_bounded_find _ _ _ _ Hb) in Hf0. cbn. lia.
 Qed.
+
+(* ================================================================== *)
+(* 5. Exactly one conditional writer wins (item 4)                      *)
+
+Lemma all_reqs_weaken (P Q : req -> Prop) st : (forall r, P r -> Q r) -> all_reqs P st -> all_reqs Q st.
+Proof. intros H Hall th Hin. eapply Forall_impl; [exact H|]. apply Hall. exact Hin. Qed.
+
+Lemma step_effect_handle_req st i r : step_effect st i = Some (EHandle r) -> exists p, cur_req st i = Some (r, p).
+Proof.
+  unfold step_effect. destruct (snd (gstep st i)); try discriminate.
+  destruct (cur_req st i) as [[q [|cap]]|]; try discriminate; intros H; injection H as H.
+  - subst. eauto.
+  - unfold hold_effect in H. destruct q; try (injection H as <-; eauto).
+    destruct cap; [destruct (lock_key _); [discriminate|]|]; injection H as <-; eauto.
+Qed.
+
+Lemma glog_all (P : req -> Prop) sched : (forall s r, P r -> P (freeze s r)) ->
+  forall st, all_reqs P st -> Forall P (glog st sched).
+Proof.
+  intros Hf. unfold glog. induction sched as [|i rest IH]; intros st Hall; [constructor|].
+  cbn [geffects]. unfold effect_reqs. rewrite flat_map_app. apply Forall_app. split.
+  - destruct (step_effect st i) as [[q|b n o]|] eqn:E; cbn; constructor; [|constructor].
+    apply step_effect_handle_req in E. destruct E as [p E]. eapply step_effect_req; eauto.
+  - apply IH. apply all_reqs_gstep; auto.
+Qed.
+
+(* requests not yet answered *)
+Definition pending (st : gstate) : nat := list_sum (map (fun th => length (gt_todo th)) (g_threads st)).
+Definition all_done (st : gstate) : Prop := forall th, In th (g_threads st) -> gt_todo th = [].
+
+Lemma list_sum_upd {A} (f : A -> nat) (l : list A) : forall i x v, nth_error l i = Some x ->
+  (list_sum (map f (upd_nth l i v)) + f x = list_sum (map f l) + f v)%nat.
+Proof.
+  unfold list_sum. induction l as [|y ys IH]; intros [|i] x v H; cbn in *; try discriminate.
+  - injection H as ->. lia.
+  - specialize (IH i x v H). lia.
+Qed.
+
+Lemma pending_step st i st' o : gstep_spec st i st' o ->
+  pending st = (pending st' + match o with ODone _ => 1 | _ => 0 end)%nat.
+Proof.
+  intros Hs. unfold pending.
+  destruct Hs as [|th r0 rest k j Hn Htodo Hprog Hk Hearly Hho Hji
+                  |th r0 rest k Hn Htodo Hprog Hk Hearly Hho Hry
+                  |th r0 rest Hn Htodo Hprog Hat
+                  |th r rest cap Hn Htodo Hprog]; [lia|..]; cbn [g_threads];
+  match goal with |- context [upd_nth _ _ ?v] =>
+    pose proof (list_sum_upd (fun th => length (gt_todo th)) _ _ _ v Hn) as H end;
+  cbn [gt_todo] in H; rewrite Htodo in H; cbn [length] in H; lia.
+Qed.
+
+Lemma pending_grun sched : forall st,
+  pending st = (pending (fst (grun st sched)) + length (done_resps (snd (grun st sched))))%nat.
+Proof.
+  induction sched as [|i rest IH]; intros st; [cbn; lia|]. rewrite grun_cons. cbn [fst snd].
+  rewrite (pending_step st i _ _ (gstep_spec_ok st i)), (IH (fst (gstep st i))).
+  destruct (snd (gstep st i)); cbn [done_resps flat_map app length];
+    fold (done_resps (snd (grun (fst (gstep st i)) rest))); lia.
+Qed.
+
+Lemma all_done_pending st : all_done st -> pending st = O.
+Proof.
+  unfold all_done, pending. induction (g_threads st) as [|th r IH]; intros H; [reflexivity|].
+  cbn [map list_sum fold_right]. rewrite (H th (or_introl eq_refl)). cbn [length Nat.add].
+  apply IH. intros th' Hin. apply H. right. exact Hin.
+Qed.
+
+Lemma run_length log : forall s, length (snd (run s log)) = length log.
+Proof.
+  induction log as [|r t IH]; intros s; [reflexivity|]. cbn [run]. destruct (handle s r) as [s1 rsp].
+  specialize (IH s1). destruct (run s1 t). cbn in *. lia.
+Qed.
+
+Section OneWinner.
+  (* a family of requests of which the first to be served succeeds and disarms all the others *)
+  Variable P : req -> Prop.
+  Variables armed spent : state -> Prop.
+  Hypothesis P_freeze : forall s r, P r -> P (freeze s r).
+  Hypothesis P_not_compose : forall r, P r -> not_compose r.
+  Hypothesis win : forall s r, P r -> armed s -> r_status (snd (handle s r)) = 200 /\ spent (fst (handle s r)).
+  Hypothesis lose : forall s r, P r -> spent s -> handle s r = (s, err 412).
+
+  (* sequentially: after one succeeds the condition is false for all later ones *)
+  Lemma losers_seq log : forall s, Forall P log -> spent s ->
+    run s log = (s, map (fun _ => err 412) log).
+  Proof.
+    induction log as [|r t IH]; intros s Hall Hsp; [reflexivity|]. inversion Hall as [|x y Hr Ht]; subst.
+    cbn [run map]. rewrite (lose s r Hr Hsp), (IH s Ht Hsp). reflexivity.
+  Qed.
+
+  Lemma one_winner_seq log s : Forall P log -> armed s ->
+    map r_status (snd (run s log)) = match log with [] => [] | _ :: t => 200 :: repeat 412 (length t) end.
+  Proof.
+    intros Hall Harm. destruct log as [|r t]; [reflexivity|]. inversion Hall as [|x y Hr Ht]; subst.
+    destruct (win s r Hr Harm) as [H200 Hsp]. cbn [run]. destruct (handle s r) as [s1 rsp]. cbn [fst snd] in *.
+    rewrite (losers_seq t s1 Ht Hsp). cbn [snd map]. rewrite H200. f_equal.
+    clear. induction t as [|x t IH]; cbn; [reflexivity|]. f_equal. exact IH.
+  Qed.
+
+  (* concurrently, for every schedule that lets all threads finish: the first to commit answers
+     200, every other one 412 *)
+  Theorem one_winner_conc st sched : all_reqs P st -> armed (g_store st) ->
+    all_done (fst (grun st sched)) ->
+    map r_status (done_resps (snd (grun st sched)))
+    = match pending st with O => [] | S k => 200 :: repeat 412 k end.
+  Proof.
+    intros Hall Harm Hdone.
+    destruct (gconc_serializable_object_from st sched (all_reqs_weaken _ _ st P_not_compose Hall)) as [_ Hresp].
+    pose proof (pending_grun sched st) as Hp. rewrite (all_done_pending _ Hdone), Hresp, run_length in Hp.
+    rewrite Hresp, (one_winner_seq _ _ (glog_all P sched P_freeze st Hall) Harm).
+    cbn [Nat.add] in Hp. rewrite Hp. destruct (glog st sched); reflexivity.
+  Qed.
+End OneWinner.
+
+(* literal preconditions: ifGenerationMatch = a, nothing else *)
+Definition cp_lit (a : str) : cparams := mkCP (PRaw a) (PRaw []) (PRaw []) (PRaw []).
+
+Lemma cval_print_int g : 0 <= g <= int64_max -> cval_of_raw (print_int g) = VNum g.
+Proof.
+  intros Hg. unfold cval_of_raw. destruct (print_int_digits g (proj1 Hg)) as [_ [h [t [E _]]]].
+  rewrite parse_print_int_roundtrip by (unfold int64_min; lia). rewrite E. reflexivity.
+Qed.
+
+Lemma resolve_conds_lit_gen s g : 0 <= g <= int64_max ->
+  resolve_conds s (cp_lit (print_int g)) = Some (mkConds g 0 0 0 (Z.eqb g 0)).
+Proof. intros Hg. unfold resolve_conds, cp_lit. cbn [cp1 cp2 cp3 cp4 resolve]. rewrite (cval_print_int g Hg). reflexivity. Qed.
+
+(* uploads of (b, n) conditioned on generation g *)
+Definition gen_upload (b n : str) (g : Z) (r : req) : Prop :=
+  exists ct d, r = RUploadMedia b n ct d (cp_lit (print_int g)).
+(* uploads of (b, n) conditioned on non-existence: ifGenerationMatch=0 *)
+Definition dne_upload (b n : str) (r : req) : Prop :=
+  exists ct d, r = RUploadMedia b n ct d (cp_lit [48%N]).
+
+Definition has_gen (b n : str) (g : Z) (s : state) : Prop :=
+  exists o, find_obj s b n = Some o /\ o_gen o = g /\ g <= s_clock s.
+Definition has_other_gen (b n : str) (g : Z) (s : state) : Prop :=
+  exists o, find_obj s b n = Some o /\ o_gen o <> g.
+
+Lemma gen_upload_win b n g s r : n <> [] -> 0 < g <= int64_max -> gen_upload b n g r -> has_gen b n g s ->
+  r_status (snd (handle s r)) = 200 /\ has_other_gen b n g (fst (handle s r)).
+Proof.
+  intros Hn Hg [ct [d ->]] [o [Hf [Ho Hc]]]. cbn [handle]. rewrite resolve_conds_lit_gen by lia.
+  destruct n as [|c n']; [congruence|]. unfold finish_upload. rewrite Hf. cbn [obj_gens validate_conds c_dne c_gm c_gnm c_mm c_mnm].
+  rewrite Ho. replace (g =? 0) with false by (symmetry; apply Z.eqb_neq; lia). rewrite Z.eqb_refl. cbn [negb andb Z.eqb].
+  unfold resp_meta. rewrite find_obj_store_add_same. cbn [fst snd r_status]. split; [reflexivity|].
+  eexists. split; [apply find_obj_store_add_same|]. cbn [o_gen]. lia.
+Qed.
+
+Lemma gen_upload_lose b n g s r : n <> [] -> 0 < g <= int64_max -> gen_upload b n g r -> has_other_gen b n g s ->
+  handle s r = (s, err 412).
+Proof.
+  intros Hn Hg [ct [d ->]] [o [Hf Ho]]. cbn [handle]. rewrite resolve_conds_lit_gen by lia.
+  destruct n as [|c n']; [congruence|]. unfold finish_upload. rewrite Hf. cbn [obj_gens validate_conds c_dne c_gm c_gnm c_mm c_mnm].
+  replace (g =? 0) with false by (symmetry; apply Z.eqb_neq; lia).
+  replace (o_gen o =? g) with false by (symmetry; apply Z.eqb_neq; exact Ho). reflexivity.
+Qed.
+
+Lemma gen_upload_freeze b n g s r : gen_upload b n g r -> gen_upload b n g (freeze s r).
+Proof. intros [ct [d ->]]. exists ct, d. reflexivity. Qed.
+Lemma gen_upload_not_compose b n g r : gen_upload b n g r -> not_compose r.
+Proof. intros [ct [d ->]]. exact I. Qed.
+
+(* item 4, generation-conditioned: any number of threads, any number of uploads each, all
+   conditioned on the generation g the object has; every schedule that lets all finish *)
+Theorem exactly_one_conditional_writer_wins_from st sched b n g :
+  n <> [] -> 0 < g <= int64_max ->
+  all_reqs (gen_upload b n g) st -> has_gen b n g (g_store st) ->
+  all_done (fst (grun st sched)) ->
+  map r_status (done_resps (snd (grun st sched)))
+  = match pending st with O => [] | S k => 200 :: repeat 412 k end.
+Proof.
+  intros Hn Hg Hall Hgen Hdone.
+  apply (one_winner_conc (gen_upload b n g) (has_gen b n g) (has_other_gen b n g)); auto.
+  - apply gen_upload_freeze.
+  - apply gen_upload_not_compose.
+  - intros s r. apply gen_upload_win; auto.
+  - intros s r. apply gen_upload_lose; auto.
+Qed.
+
+Lemma pending_init s0 progs : pending (init_g s0 progs) = list_sum (map (@length req) progs).
+Proof. unfold pending, init_g. cbn [g_threads]. rewrite map_map. reflexivity. Qed.
+
+Lemma list_sum_ones {A} (f : A -> list req) (l : list A) :
+  (forall x, length (f x) = 1%nat) -> list_sum (map (@length req) (map f l)) = length l.
+Proof.
+  intros H. induction l as [|x r IH]; [reflexivity|]. cbn [map list_sum fold_right length].
+  rewrite H. cbn [Nat.add]. f_equal. exact IH.
+Qed.
+
+(* N threads, one upload each, as in the property statement *)
+Theorem exactly_one_conditional_writer_wins s0 b n g (payloads : list (str * bytes)) sched :
+  n <> [] -> 0 < g <= int64_max -> has_gen b n g s0 ->
+  let st := init_g s0 (map (fun cd => [RUploadMedia b n (fst cd) (snd cd) (cp_lit (print_int g))]) payloads) in
+  all_done (fst (grun st sched)) ->
+  map r_status (done_resps (snd (grun st sched)))
+  = match length payloads with O => [] | S k => 200 :: repeat 412 k end.
+Proof.
+  intros Hn Hg Hgen st Hdone.
+  rewrite <- (list_sum_ones (fun cd => [RUploadMedia b n (fst cd) (snd cd) (cp_lit (print_int g))]) payloads) by reflexivity.
+  rewrite <- (pending_init s0). apply (exactly_one_conditional_writer_wins_from st sched b n g); auto.
+  apply all_reqs_init. apply Forall_forall. intros rs Hin. apply in_map_iff in Hin. destruct Hin as [cd [<- _]].
+  constructor; [|constructor]. exists (fst cd), (snd cd). reflexivity.
+Qed.
+
+(* conditioned on non-existence *)
+Definition absent (b n : str) (s : state) : Prop := find_obj s b n = None.
+Definition present (b n : str) (s : state) : Prop := exists o, find_obj s b n = Some o.
+
+Lemma resolve_conds_lit_zero s : resolve_conds s (cp_lit [48%N]) = Some (mkConds 0 0 0 0 true).
+Proof. reflexivity. Qed.
+
+Lemma dne_upload_win b n s r : n <> [] -> dne_upload b n r -> absent b n s ->
+  r_status (snd (handle s r)) = 200 /\ present b n (fst (handle s r)).
+Proof.
+  intros Hn [ct [d ->]] Hf. unfold absent in Hf. cbn [handle]. rewrite resolve_conds_lit_zero.
+  destruct n as [|c n']; [congruence|]. unfold finish_upload. rewrite Hf. cbn [obj_gens validate_conds].
+  change (conds_eqb (mkConds 0 0 0 0 true) empty_conds || conds_eqb (mkConds 0 0 0 0 true) (mkConds 0 0 0 0 true)) with true.
+  cbv iota. unfold resp_meta. rewrite find_obj_store_add_same. cbn [fst snd r_status]. split; [reflexivity|].
+  eexists. apply find_obj_store_add_same.
+Qed.
+
+Lemma dne_upload_lose b n s r : n <> [] -> dne_upload b n r -> present b n s -> handle s r = (s, err 412).
+Proof.
+  intros Hn [ct [d ->]] [o Hf]. cbn [handle]. rewrite resolve_conds_lit_zero.
+  destruct n as [|c n']; [congruence|]. unfold finish_upload. rewrite Hf. reflexivity.
+Qed.
+
+Theorem exactly_one_dne_writer_wins_from st sched b n :
+  n <> [] -> all_reqs (dne_upload b n) st -> absent b n (g_store st) ->
+  all_done (fst (grun st sched)) ->
+  map r_status (done_resps (snd (grun st sched)))
+  = match pending st with O => [] | S k => 200 :: repeat 412 k end.
+Proof.
+  intros Hn Hall Habs Hdone.
+  apply (one_winner_conc (dne_upload b n) (absent b n) (present b n)); auto.
+  - intros s r [ct [d ->]]. exists ct, d. reflexivity.
+  - intros r [ct [d ->]]. exact I.
+  - intros s r. apply dne_upload_win; auto.
+  - intros s r. apply dne_upload_lose; auto.
+Qed.
+
+Theorem exactly_one_dne_writer_wins s0 b n (payloads : list (str * bytes)) sched :
+  n <> [] -> find_obj s0 b n = None ->
+  let st := init_g s0 (map (fun cd => [RUploadMedia b n (fst cd) (snd cd) (cp_lit [48%N])]) payloads) in
+  all_done (fst (grun st sched)) ->
+  map r_status (done_resps (snd (grun st sched)))
+  = match length payloads with O => [] | S k => 200 :: repeat 412 k end.
+Proof.
+  intros Hn Habs st Hdone.
+  rewrite <- (list_sum_ones (fun cd => [RUploadMedia b n (fst cd) (snd cd) (cp_lit [48%N])]) payloads) by reflexivity.
+  rewrite <- (pending_init s0). apply (exactly_one_dne_writer_wins_from st sched b n); auto.
+  apply all_reqs_init. apply Forall_forall. intros rs Hin. apply in_map_iff in Hin. destruct Hin as [cd [<- _]].
+  constructor; [|constructor]. exists (fst cd), (snd cd). reflexivity.
+Qed.
+
+(* ================================================================== *)
+(* 6. The lock protects the object from check to mutation (items 5, 6)  *)
+
+(* requests that take the object lock of what they change.  In the model a resumable PUT that
+   completes an upload, and a bucket deletion, change objects WITHOUT taking their lock
+   (see held_object_stable_refuted_* below) *)
+Definition lock_respecting (r : req) : Prop :=
+  match r with RResumablePut _ _ _ | RDeleteBucket _ _ => False | _ => True end.
+
+Lemma lock_respecting_freeze s r : lock_respecting r -> lock_respecting (freeze s r).
+Proof. destruct r; cbn; auto. Qed.
+
+Definition effect_key (e : geffect) : option (str * str) :=
+  match e with EHandle r => lock_key r | EAdd b n _ => Some (b, n) end.
+Definition effect_respecting (e : geffect) : Prop :=
+  match e with EHandle r => lock_respecting r | EAdd _ _ _ => True end.
+
+(* a lock-respecting handler changes no object but the one whose lock it takes *)
+Lemma handle_frame_key s r b n : lock_respecting r -> lock_key r <> Some (b, n) ->
+  find_obj (fst (handle s r)) b n = find_obj s b n.
+Proof.
+  intros Hl Hk.
+  assert (Hgen : ~ In (b, n) (targets s r) -> bucket_target r <> Some b ->
+                 find_obj (fst (handle s r)) b n = find_obj s b n) by apply other_objects_untouched.
+  destruct r; cbn [lock_respecting] in Hl; try contradiction;
+    try (apply Hgen; [cbn [targets lock_key] in *; intros [E|[]]; apply Hk; f_equal; exact E|cbn; discriminate]);
+    try (apply Hgen; [cbn; tauto|cbn; discriminate]).
+  - (* compose *)
+    apply Hgen; [|cbn; discriminate]. cbn [targets lock_key] in *.
+    destruct (split (dst ++ s_compose) s_compose) as [|d0 [|d1 [|d2 ds]]]; cbn; try tauto.
+    intros [E|[]]. apply Hk. f_equal. exact E.
+  - (* copy *)
+    cbn [lock_key] in Hk. destruct (contains (n1 ++ s_rewrite_b ++ b2 ++ s_o ++ n2) s_compose) eqn:Ec.
+    + cbn [handle]. rewrite Ec. reflexivity.
+    + apply Hgen; [|cbn; discriminate]. cbn [targets].
+      destruct (split (n1 ++ s_rewrite_b ++ b2 ++ s_o ++ n2) s_rewrite_b) as [|f1 [|rest [|x xs]]]; cbn; try tauto.
+      destruct (split2 rest s_o) as [|b2' [|f2 [|y ys]]]; cbn; try tauto.
+      intros [E|[]]. apply Hk. f_equal. exact E.
+Qed.
+
+Lemma effect_frame s e b n : effect_respecting e -> effect_key e <> Some (b, n) ->
+  find_obj (apply_geffect s e) b n = find_obj s b n.
+Proof.
+  destruct e as [r|b0 n0 o]; cbn [effect_respecting effect_key apply_geffect]; intros Hl Hk.
+  - apply handle_frame_key; assumption.
+  - apply find_obj_store_add_other. congruence.
+Qed.
+
+Lemma gearly_unchanged s r : gearly s r = true -> fst (handle s r) = s.
+Proof.
+  destruct r; cbn [gearly handle]; try discriminate.
+  - destruct (resolve_conds s cp); [|reflexivity]. destruct n; [reflexivity|discriminate].
+  - destruct (resolve_conds s cp); [|reflexivity]. intros H. unfold finish_upload.
+    apply orb_prop in H. destruct H as [H|H]; apply N.eqb_eq in H; rewrite H; reflexivity.
+  - destruct (resolve_conds s cp); [discriminate|reflexivity].
+  - destruct (resolve_conds s cp); [discriminate|reflexivity].
+  - destruct (resolve_conds s cp); [|reflexivity]. intros ->. reflexivity.
+Qed.
+
+Lemma step_effect_respecting st i e : all_reqs lock_respecting st -> step_effect st i = Some e -> effect_respecting e.
+Proof.
+  intros Hall E. destruct e as [r|b n o]; [|exact I]. cbn.
+  apply step_effect_handle_req in E. destruct E as [p E].
+  eapply (step_effect_req lock_respecting); eauto using lock_respecting_freeze.
+Qed.
+
+Lemma holders_key_inj st k i j : glock_inv st -> In (k, i) (g_holders st) -> In (k, j) (g_holders st) -> i = j.
+Proof.
+  intros Hinv. pose proof (gi_keys _ Hinv) as Hnd. induction (g_holders st) as [|[k' i'] r IH]; intros H1 H2; [destruct H1|].
+  cbn [map fst] in Hnd. inversion Hnd as [|x y Hn Hr]; subst.
+  destruct H1 as [H1|H1], H2 as [H2|H2]; try congruence; auto.
+  - injection H1 as -> ->. exfalso. apply Hn. apply in_map_iff. exists (k, j). auto.
+  - injection H2 as -> ->. exfalso. apply Hn. apply in_map_iff. exists (k, i). auto.
+Qed.
+
+(* a commit of another thread either is on another key or leaves the store as it is *)
+Lemma other_commit_other_key st i j k e : glock_inv st -> In (k, i) (g_holders st) -> j <> i ->
+  step_effect st j = Some e -> effect_key e <> Some k \/ apply_geffect (g_store st) e = g_store st.
+Proof.
+  intros Hinv Hki Hne. unfold step_effect, cur_req.
+  destruct (gstep_spec_ok st j) as [|th r0 rest k' j' Hth Htodo Hprog Hk Hearly Hho Hji
+                                         |th r0 rest k' Hth Htodo Hprog Hk Hearly Hho Hry
+                                         |th r0 rest Hth Htodo Hprog Hat
+                                         |th r rest cap Hth Htodo Hprog]; try discriminate.
+  - rewrite Hth, Htodo, Hprog. intros E. injection E as <-. cbn [effect_key apply_geffect].
+    destruct Hat as [Hnone|[k' [Hk [Hearly|[Hho _]]]]].
+    + left. congruence.
+    + right. apply gearly_unchanged. exact Hearly.
+    + left. rewrite Hk. intros E. injection E as ->. apply holder_of_none in Hho. apply Hho.
+      apply in_map_iff. exists (k, i). auto.
+  - rewrite Hth, Htodo, Hprog. intros E. injection E as <-. left.
+    destruct (gi_hold _ Hinv _ _ _ Hth Hprog) as [r' [rest' [k' [Ht Hk]]]]. rewrite Htodo in Ht. injection Ht as <- <-.
+    assert (Hin : In (k', j) (g_holders st)).
+    { apply (gi_iff _ Hinv). exists th, r, rest, cap. auto. }
+    assert (Hek : effect_key (hold_effect r cap) = Some k').
+    { unfold hold_effect. destruct r; cbn [effect_key]; try exact Hk. destruct cap; [|exact Hk].
+      rewrite Hk. cbn [effect_key]. destruct k'; reflexivity. }
+    rewrite Hek. intros E. injection E as ->. apply Hne. eapply holders_key_inj; eauto.
+Qed.
+
+(* held_object_stable: while thread i holds the lock of (b, n), steps of other threads do not
+   change object (b, n) *)
+Theorem held_object_stable st i j b n : glock_inv st -> all_reqs lock_respecting st ->
+  In ((b, n), i) (g_holders st) -> j <> i ->
+  find_obj (g_store (fst (gstep st j))) b n = find_obj (g_store st) b n.
+Proof.
+  intros Hinv Hall Hki Hne. rewrite step_effect_store. destruct (step_effect st j) as [e|] eqn:E; [|reflexivity].
+  destruct (other_commit_other_key st i j (b, n) e Hinv Hki Hne E) as [H|H].
+  - apply effect_frame; [|exact H]. eapply step_effect_respecting; eauto.
+  - rewrite H. reflexivity.
+Qed.
+
+Lemma holder_kept st i j k : In (k, i) (g_holders st) -> j <> i -> In (k, i) (g_holders (fst (gstep st j))).
+Proof.
+  intros Hin Hne. destruct (gstep_spec_ok st j); cbn [g_holders]; auto.
+  - right. exact Hin.
+  - apply release_in. auto.
+  - apply release_in. auto.
+Qed.
+
+Theorem held_object_stable_run mid : forall st i b n, glock_inv st -> all_reqs lock_respecting st ->
+  In ((b, n), i) (g_holders st) -> Forall (fun j => j <> i) mid ->
+  let st' := fst (grun st mid) in
+  find_obj (g_store st') b n = find_obj (g_store st) b n
+  /\ In ((b, n), i) (g_holders st')
+  /\ nth_error (g_threads st') i = nth_error (g_threads st) i.
+Proof.
+  induction mid as [|j rest IH]; intros st i b n Hinv Hall Hki Hmid; [cbn; auto|].
+  inversion Hmid as [|x y Hj Hrest]; subst. rewrite grun_cons. cbn [fst].
+  destruct (IH (fst (gstep st j)) i b n) as [H1 [H2 H3]]; auto.
+  - apply glock_inv_gstep. exact Hinv.
+  - apply all_reqs_gstep; auto using lock_respecting_freeze.
+  - apply holder_kept; auto.
+  - split; [rewrite H1; apply (held_object_stable st i j); auto|]. split; [exact H2|].
+    rewrite H3. apply gstep_other_threads. auto.
+Qed.
+
+(* ---- item 6: no lost update ---- *)
+
+Lemma key_opt_dec (a b : option (str * str)) : {a = b} + {a <> b}.
+Proof. repeat decide equality. Qed.
+
+(* an object changes only by a commit step whose request locks that very object *)
+Theorem object_changes_only_by_own_key_commit st j b n : all_reqs lock_respecting st ->
+  find_obj (g_store (fst (gstep st j))) b n <> find_obj (g_store st) b n ->
+  exists e, step_effect st j = Some e /\ effect_key e = Some (b, n).
+Proof.
+  intros Hall Hch. rewrite step_effect_store in Hch. destruct (step_effect st j) as [e|] eqn:E; [|congruence].
+  exists e. split; [reflexivity|]. destruct (key_opt_dec (effect_key e) (Some (b, n))) as [H|H]; [exact H|].
+  exfalso. apply Hch. apply effect_frame; [|exact H]. eapply step_effect_respecting; eauto.
+Qed.
+
+(* no commit on key k in the schedule *)
+Fixpoint quiet_on (st : gstate) (sched : list nat) (k : str * str) : Prop :=
+  match sched with
+  | [] => True
+  | i :: rest => (forall e, step_effect st i = Some e -> effect_key e <> Some k)
+                 /\ quiet_on (fst (gstep st i)) rest k
+  end.
+
+Theorem quiet_object_unchanged sched : forall st b n, all_reqs lock_respecting st ->
+  quiet_on st sched (b, n) ->
+  find_obj (g_store (fst (grun st sched))) b n = find_obj (g_store st) b n.
+Proof.
+  induction sched as [|i rest IH]; intros st b n Hall Hq; [reflexivity|]. destruct Hq as [Hq1 Hq2].
+  rewrite grun_cons. cbn [fst]. rewrite IH; auto using all_reqs_gstep, lock_respecting_freeze.
+  rewrite step_effect_store. destruct (step_effect st i) as [e|] eqn:E; [|reflexivity].
+  apply effect_frame; [eapply step_effect_respecting; eauto|]. apply Hq1. reflexivity.
+Qed.
+
+(* no_lost_update: the effect of a commit is in the store right after it, and what it did to
+   its object stays until the next commit on the same key *)
+Theorem no_lost_update st i e sched b n : all_reqs lock_respecting st ->
+  step_effect st i = Some e ->
+  g_store (fst (gstep st i)) = apply_geffect (g_store st) e
+  /\ (quiet_on (fst (gstep st i)) sched (b, n) ->
+      find_obj (g_store (fst (grun st (i :: sched)))) b n = find_obj (apply_geffect (g_store st) e) b n).
+Proof.
+  intros Hall E. pose proof (step_effect_spec st i) as Hsp. rewrite E in Hsp. destruct Hsp as [H1 _].
+  split; [exact H1|]. intros Hq. rewrite grun_cons. cbn [fst]. rewrite <- H1.
+  apply quiet_object_unchanged; auto using all_reqs_gstep, lock_respecting_freeze.
+Qed.
+
+(* the guard of held_object_stable is needed: a bucket deletion, and the completion of a resumable
+   upload, change an object whose lock another thread holds *)
+Definition c07_b : str := [98]%N.
+Definition c07_n : str := [110]%N.
+Definition c07_cp0 : cparams := cp_lit [].
+Definition c07_up (d : bytes) : req := RUploadMedia c07_b c07_n [116]%N d c07_cp0.
+Definition c07_s1 : state := fst (handle init_state (c07_up [1]%N)).
+
+Lemma held_object_stable_refuted_delete_bucket :
+  let st := fst (gstep (init_g c07_s1 [[c07_up [2]%N]; [RDeleteBucket c07_b c07_cp0]]) 0) in
+  In ((c07_b, c07_n), 0%nat) (g_holders st)
+  /\ find_obj (g_store st) c07_b c07_n <> None
+  /\ find_obj (g_store (fst (gstep st 1))) c07_b c07_n = None.
+Proof. cbn zeta. split; [left; reflexivity|]. split; [vm_compute; discriminate|vm_compute; reflexivity]. Qed.
+
+Lemma held_object_stable_refuted_resumable_put :
+  let s2 := fst (handle c07_s1 (RResumableInit c07_b false (mkUpMeta c07_n [116]%N 0 []) c07_cp0)) in
+  let put := RResumablePut [49]%N (Some [98; 121; 116; 101; 115; 32; 48; 45; 48; 47; 49]%N) [9]%N in
+  let st := fst (gstep (init_g s2 [[c07_up [2]%N]; [put]]) 0) in
+  In ((c07_b, c07_n), 0%nat) (g_holders st)
+  /\ (exists o, find_obj (g_store st) c07_b c07_n = Some o /\ o_data o = [1]%N)
+  /\ (exists o, find_obj (g_store (fst (gstep st 1))) c07_b c07_n = Some o /\ o_data o = [9]%N).
+Proof.
+  cbn zeta. split; [left; reflexivity|]. split; eexists; (split; [vm_compute; reflexivity|reflexivity]).
+Qed.
+
+(* ---- item 5: a metageneration-conditioned patch ---- *)
+
+Lemma parse_conds_mm p1 p2 p4 m c : parse_conds p1 p2 (VNum m) p4 = Some c -> c_mm c = m.
+Proof. destruct p1, p2, p4; cbn; intros H; try discriminate; injection H as <-; reflexivity. Qed.
+
+Lemma validate_pass_metagen gen mg c : validate_conds (Some (gen, mg)) c = VPass -> c_mm c = 0 \/ mg = c_mm c.
+Proof.
+  cbn [validate_conds]. destruct (c_dne c); [discriminate|].
+  destruct (negb (c_gm c =? 0) && negb (gen =? c_gm c)); [discriminate|].
+  destruct (negb (c_gnm c =? 0) && (gen =? c_gnm c)); [discriminate|].
+  destruct (Z.eqb_spec (c_mm c) 0) as [E|E]; [auto|]. destruct (Z.eqb_spec mg (c_mm c)) as [E1|E1]; [auto|discriminate].
+Qed.
+
+(* sequential core: a patch conditioned on metageneration m that answers 200 found metageneration m *)
+Lemma patch_200_metagen s b n p cp m : cp3 cp = PRaw (print_int m) -> 0 < m <= int64_max ->
+  r_status (snd (handle s (RPatch b n p cp))) = 200 ->
+  exists o, find_obj s b n = Some o /\ o_metagen o = m
+    /\ find_obj (fst (handle s (RPatch b n p cp))) b n
+       = Some (mkObj (o_data o) (match pt_ctype p with Some t => t | None => o_ctype o end)
+                     (o_gen o) (m + 1) (o_md5 o)
+                     (match pt_meta p with Some kv => merge_meta (o_meta o) kv | None => o_meta o end)).
+Proof.
+  intros Hcp Hm H200. destruct (patch_bumps_metagen_only s b n p cp H200) as [o [Hf [Hf' _]]].
+  exists o. split; [exact Hf|].
+  assert (Hmg : o_metagen o = m).
+  { revert H200. cbn [handle]. unfold resolve_conds. rewrite Hcp. cbn [resolve]. rewrite cval_print_int by lia.
+    destruct (parse_conds _ _ (VNum m) _) as [c|] eqn:Ec; [|cbn; discriminate]. rewrite Hf.
+    destruct (validate_conds _ c) eqn:Ev; try (cbn; discriminate). intros _.
+    apply parse_conds_mm in Ec. apply validate_pass_metagen in Ev. lia. }
+  split; [exact Hmg|]. rewrite Hf', Hmg. reflexivity.
+Qed.
+
+(* at its commit step *)
+Theorem metagen_patch_never_applies_to_unmatched_state st i b n p cp m rsp :
+  step_effect st i = Some (EHandle (RPatch b n p cp)) -> cp3 cp = PRaw (print_int m) -> 0 < m <= int64_max ->
+  snd (gstep st i) = ODone rsp -> r_status rsp = 200 ->
+  exists o, find_obj (g_store st) b n = Some o /\ o_metagen o = m
+    /\ find_obj (g_store (fst (gstep st i))) b n
+       = Some (mkObj (o_data o) (match pt_ctype p with Some t => t | None => o_ctype o end)
+                     (o_gen o) (m + 1) (o_md5 o)
+                     (match pt_meta p with Some kv => merge_meta (o_meta o) kv | None => o_meta o end)).
+Proof.
+  intros E Hcp Hm Ho H200. pose proof (step_effect_spec st i) as Hsp. rewrite E in Hsp. destruct Hsp as [H1 H2].
+  rewrite H2 in Ho. injection Ho as <-. rewrite H1. cbn [apply_geffect effect_resp] in *.
+  apply patch_200_metagen; auto.
+Qed.
+
+(* frozen preconditions do not depend on the store any more *)
+Lemma resolve_frozen s s1 s2 p : resolve s1 (freeze_param s p) = resolve s2 (freeze_param s p).
+Proof. destruct p; cbn; try reflexivity; destruct (find_obj s b n); reflexivity. Qed.
+
+Lemma resolve_conds_frozen s s1 s2 cp : resolve_conds s1 (freeze_cp s cp) = resolve_conds s2 (freeze_cp s cp).
+Proof.
+  unfold resolve_conds, freeze_cp. cbn [cp1 cp2 cp3 cp4].
+  rewrite (resolve_frozen s s1 s2 (cp1 cp)), (resolve_frozen s s1 s2 (cp2 cp)),
+          (resolve_frozen s s1 s2 (cp3 cp)), (resolve_frozen s s1 s2 (cp4 cp)). reflexivity.
+Qed.
+
+Definition patched (p : patch) (o : obj) : obj :=
+  mkObj (o_data o) (match pt_ctype p with Some t => t | None => o_ctype o end)
+        (o_gen o) (o_metagen o + 1) (o_md5 o)
+        (match pt_meta p with Some kv => merge_meta (o_meta o) kv | None => o_meta o end).
+
+(* from check to mutation: the patch whose preconditions passed on object o at its yield (OAt)
+   is applied, whatever the other threads do meanwhile, to that same object o *)
+Theorem held_patch_applies_to_checked_object st i b n p cp mid :
+  glock_inv st -> all_reqs lock_respecting st ->
+  cur_req st i = Some (RPatch b n p cp, GNew) -> snd (gstep st i) = OAt ->
+  Forall (fun j => j <> i) mid ->
+  let st2 := fst (grun (fst (gstep st i)) mid) in
+  exists o c,
+    find_obj (g_store st) b n = Some o
+    /\ resolve_conds (g_store st) cp = Some c /\ validate_conds (Some (o_gen o, o_metagen o)) c = VPass
+    /\ find_obj (g_store st2) b n = Some o
+    /\ cur_req st2 i = Some (RPatch b n p cp, GHold None)
+    /\ snd (gstep st2 i) = ODone (if pt_bad p then err 400 else mkResp 200 (BMeta (view b n (patched p o))))
+    /\ (pt_bad p = false -> find_obj (g_store (fst (gstep st2 i))) b n = Some (patched p o)).
+Proof.
+  intros Hinv Hall Hcur Ho Hmid st2.
+  pose proof (gstep_spec_ok st i) as Hs. rewrite Ho in Hs.
+  assert (Hinv1 : glock_inv (fst (gstep st i))) by (apply glock_inv_gstep; exact Hinv).
+  assert (Hall1 : all_reqs lock_respecting (fst (gstep st i))) by (apply all_reqs_gstep; auto using lock_respecting_freeze).
+  remember (fst (gstep st i)) as st1 eqn:Est1.
+  inversion Hs as [| |th r0 rest k Hth Htodo Hprog Hk Hearly Hho Hry Hst| |]. clear Hs.
+  unfold cur_req in Hcur. rewrite Hth, Htodo, Hprog in Hcur. injection Hcur as Hr.
+  rewrite Hr in *. clear Hearly.
+  assert (Ek : k = (b, n)) by (cbn in Hk; congruence). subst k.
+  (* the preconditions are frozen *)
+  assert (Hfz : exists cp0, cp = freeze_cp (g_store st) cp0).
+  { destruct r0; cbn [freeze] in Hr; try discriminate. injection Hr as _ _ _ <-. eauto. }
+  destruct Hfz as [cp0 Hfz].
+  (* the check at the yield *)
+  cbn [reaches_yield] in Hry.
+  destruct (resolve_conds (g_store st) cp) as [c|] eqn:Ec; [|discriminate].
+  destruct (find_obj (g_store st) b n) as [o|] eqn:Ef; [|discriminate].
+  destruct (validate_conds (Some (o_gen o, o_metagen o)) c) eqn:Ev; try discriminate.
+  exists o, c. split; [reflexivity|]. split; [reflexivity|]. split; [exact Ev|].
+  (* the other threads *)
+  assert (Hki : In ((b, n), i) (g_holders st1)) by (rewrite <- Hst; left; reflexivity).
+  destruct (held_object_stable_run mid st1 i b n Hinv1 Hall1 Hki Hmid) as [H1 [H2 H3]]. fold st2 in H1, H2, H3.
+  assert (Hs1 : g_store st1 = g_store st) by (rewrite <- Hst; reflexivity).
+  assert (Hth1 : nth_error (g_threads st1) i = Some (mkGThread (RPatch b n p cp :: rest) (GHold None))).
+  { rewrite <- Hst. cbn [g_threads]. rewrite (nth_error_upd_same _ _ _ _ Hth). reflexivity. }
+  rewrite Hth1 in H3. rewrite Hs1, Ef in H1.
+  split; [exact H1|]. split; [unfold cur_req; rewrite H3; reflexivity|].
+  assert (Hh : handle (g_store st2) (RPatch b n p cp)
+               = if pt_bad p then (g_store st2, err 400)
+                 else (store_put_obj (g_store st2) b n (patched p o), mkResp 200 (BMeta (view b n (patched p o))))).
+  { cbn [handle]. rewrite Hfz, (resolve_conds_frozen _ (g_store st2) (g_store st)), <- Hfz, Ec, H1, Ev.
+    destruct (pt_bad p); reflexivity. }
+  rewrite (gstep_hold st2 i _ _ _ _ H3 eq_refl eq_refl). cbn [fst snd hold_effect effect_resp apply_geffect g_store].
+  rewrite Hh. split; [destruct (pt_bad p); reflexivity|]. intros Hb. rewrite Hb. cbn [fst].
+  apply find_obj_put_same. unfold find_obj in H1. destruct (get_bucket (g_store st2) b); [discriminate|discriminate H1].
+Qed.
+
+(* ================================================================== *)
+(* 7. Reads (item 7)                                                    *)
+
+(* a metadata / media read is one atomic step: what it returns (generation, metageneration,
+   metadata, content) is the object as stored in ONE reachable store state, the store at that
+   step, and the step changes nothing in the store *)
+Theorem mem_read_snapshot st i b n p r :
+  cur_req st i = Some (r, p) -> r = RGetMeta b n \/ r = RGetMedia b n ->
+  g_store (fst (gstep st i)) = g_store st
+  /\ snd (gstep st i) = ODone (match find_obj (g_store st) b n with
+                               | Some o => if match r with RGetMeta _ _ => true | _ => false end
+                                           then mkResp 200 (BMeta (view b n o))
+                                           else mkResp 200 (BMedia (o_data o) (o_ctype o) (o_gen o) (o_metagen o))
+                               | None => err 404
+                               end).
+Proof.
+  intros Hcur Hr. unfold cur_req in Hcur.
+  destruct (nth_error (g_threads st) i) as [th|] eqn:Hth; [|discriminate].
+  destruct (gt_todo th) as [|r0 rest] eqn:Htodo; [discriminate|]. injection Hcur as Hr0 Hp.
+  assert (Hr0' : r0 = r).
+  { destruct (gt_prog th); [|exact Hr0]. destruct Hr as [-> | ->]; destruct r0; cbn [freeze] in Hr0; congruence. }
+  subst r0. unfold gstep. rewrite Hth, Htodo.
+  destruct Hr as [-> | ->]; destruct (gt_prog th); cbn [freeze lock_key handle];
+    destruct (find_obj (g_store st) b n); cbn [fst snd g_store]; split; reflexivity.
+Qed.
+
+(* file_read_mixture_refuted (documented only): the FILE store's Add is three separate steps
+   (write content, write metadata, rename), which are not in this model; a read between them can
+   return the new content with the old metadata.  This is exhibited dynamically by the harness as
+   finding GCS-10 and is outside the memory-store interleaving model proved about here. *)
+
+(* ---- concrete material for the non-vacuity examples ---- *)
+Definition otag (o : outcome) : Z := match o with OAt => 1 | OBlocked => 2 | ODone r => r_status r | OIdle => 0 end.
+Definition c07_g : Z := clock0 + 1.                    (* the generation of the object in c07_s1 *)
+Definition c07_cup (d : bytes) : req := RUploadMedia c07_b c07_n [116]%N d (cp_lit (print_int c07_g)).
+Definition c07_dup (d : bytes) : req := RUploadMedia c07_b c07_n [116]%N d (cp_lit [48]%N).
+Definition c07_patch : req :=
+  RPatch c07_b c07_n (mkPatch false (Some [120]%N) None None None None)
+         (mkCP (PRaw []) (PRaw []) (PRaw (print_int 1)) (PRaw [])).
